@@ -113,9 +113,16 @@ func genC03(t *rapid.T) c03Case {
 		}
 		if rapid.IntRange(0, 2).Draw(t, "hasiuid") == 0 {
 			e.IssuerUID = genRaw(t, "iuid", 1200)
+			if rapid.IntRange(0, 24).Draw(t, "iuid-huge") == 0 {
+				// "all unique-id byte strings": tens of kilobytes on one line of the document
+				e.IssuerUID = genRaw(t, "iuid-big", 70000)
+			}
 		}
 		if rapid.IntRange(0, 2).Draw(t, "hassuid") == 0 {
 			e.SubjectUID = genRaw(t, "suid", 1200)
+			if rapid.IntRange(0, 24).Draw(t, "suid-huge") == 0 {
+				e.SubjectUID = core.Bin(bytes.Repeat([]byte{0xc3, 0x5a, 0x00}, rapid.SampledFrom([]int{16384, 16500, 21845, 23000}).Draw(t, "suid-big")))
+			}
 		}
 		e.PlainScalars = rapid.Bool().Draw(t, "plain")
 		if i > 0 && rapid.IntRange(0, 2).Draw(t, "request-based") == 0 {
